@@ -27,8 +27,8 @@ def check(pid, tier, seed):
     mc = core.tlc_ok("MC_Security", os.path.join(core.SPEC, "MC_Security.cfg"), timeout=3000)
     if mc.violated:
         verdict.violation("C16:model", {"tlc": mc.out[-3000:]}, "TLC: restriction invariants violated in the model\n" + mc.out[-1500:])
-    r3, recs3, _ = tree_export(3, [2, 5], 12, ["bb"])
-    r2, recs2, _ = tree_export(2, [2, 5], 12, ["bb"])
+    r3, recs3, _ = tree_export(3, [3, 6], 12, ["bb"])
+    r2, recs2, _ = tree_export(2, [3, 6], 12, ["bb"])
     pool = [(x, e) for x in recs3 if 1 <= len(x["log"]) <= 4 for e in ("std",)] + \
            [(x, e) for x in recs2 if 1 <= len(x["log"]) <= 4 for e in ("readdirscb", "readhistcb", "rc2cb", "readdirs", "readhist", "rc2")]
     rnd.shuffle(pool)
